@@ -252,6 +252,14 @@ def finish(ctx, level, coverage, assumptions=(), vacuous=None):
     cov = dict(coverage)
     cov.setdefault("tlc_runs", ctx.tlc_runs)
     cov["known_findings_refound"] = {k: len(v) for k, v in known.items()}
+    fam = {}
+    for k, vs in known.items():
+        for v in vs:
+            r = str(v.get("run") or v.get("cls") or "?")
+            key = k.split(" ")[1 if k.startswith("property=") else 0][:60] + " @ " + (r.split("/")[0] if "/" in r else re.sub(r"[\d.]+.*$", "", r))
+            fam[key] = fam.get(key, 0) + 1
+    cov["known_findings_refound_by_family"] = fam
+    cov["known_findings_refound_examples"] = {k[:80]: sorted({str(v.get("run")) for v in vs})[:: max(1, len(vs) // 12)][:14] for k, vs in known.items()}
     cov["model_drift"] = len(ctx.drift)
     if ctx.notes:
         cov["notes"] = ctx.notes
